@@ -130,17 +130,28 @@ def r2_bracketing(r, facts):
     eb = ExprBuilder(f, multi='phi')
     enters = f.calls_to(ENTER)
     sps = f.calls_to(SET_POLLING)
-    if not r.require(len(enters) == 1 and len(sps) == 2, 'Completions::poll', 'expected one enter and two set_polling calls (found %d/%d)' % (len(enters), len(sps)), f.where()):
+    if not r.require(len(enters) == 1 and len(sps) >= 2, 'Completions::poll', 'expected one enter bracketed by set_polling calls (found %d enter / %d set_polling)' % (len(enters), len(sps)), f.where()):
         return
     el, et = enters[0]
     on = [(l, t) for l, t in sps if eb.operand(t['args'][1])[1] == 1]
     off = [(l, t) for l, t in sps if eb.operand(t['args'][1])[1] == 0]
-    if not r.require(len(on) == 1 and len(off) == 1, 'Completions::poll/set_polling', 'set_polling(true)/(false) pair not found', f.where()):
+    if not r.require(len(on) == 1 and len(off) >= 1 and len(on) + len(off) == len(sps), 'Completions::poll/set_polling', 'set_polling(true)/(false) bracket not found (true: %d, false: %d of %d calls)' % (len(on), len(off), len(sps)), f.where()):
         return
-    r.inst('set_polling(true) -> enter -> set_polling(false)', f.where(el))
+    offl = [l for l, t in off]
+    r.inst('set_polling(true) -> enter -> set_polling(false) [%d clearing site(s)]' % len(off), f.where(el))
     r.require(f.dominates(on[0][0], el), 'Completions::poll/not-announced', 'the blocking enter is not dominated by set_polling(true): a concurrent wake() sends no ring message', f.where(el))
-    hit = f.forward_paths_hit([Loc(et['target'], 0)], f.returns(), blockers=[off[0][0]])
+    hit = f.forward_paths_hit([Loc(et['target'], 0)], f.returns(), blockers=offl)
     r.require(hit is None, 'Completions::poll/not-cleared', 'a path after enter returns without set_polling(false) (e.g. the error path): later wakes would send ring messages nobody reads', f.where(hit[0]) if hit else '')
+    # the flag reset happens right after the enter, before any completion is processed: set_polling(false) also
+    # clears the awoken flag, so a wake() that arrives while wakers run must find the state already reset
+    procs = [l for l, t in f.calls() if (t.get('callee') or '').endswith('Completion::process') or (t.get('callee') or '').endswith('wake_blocked_futures')]
+    r.require(bool(procs), 'Completions::poll/process', 'Completion::process call not found in poll (unrecognised form)', f.where())
+    hit = f.forward_paths_hit([Loc(et['target'], 0)], procs, blockers=offl)
+    r.require(hit is None, 'Completions::poll/cleared-late', 'completions are processed (wakers run) between the enter and set_polling(false): a wake() arriving in that window only sets the awoken flag, which the late set_polling(false) then wipes — the next Ring::poll blocks although it was woken', f.where(hit[0]) if hit else '')
+    # and on the path that does not enter at all (completions already queued) the state was never set to polling
+    for l in offl:
+        h2 = f.forward_paths_hit([Loc(0, 0)], [l], blockers=[on[0][0]])
+        r.require(h2 is None, 'Completions::poll/clear-without-set', 'set_polling(false) is reachable without set_polling(true) before it: it wipes the awoken flag of a wake() that arrived while this poll was processing already queued completions', f.where(l))
     # nothing blocks between set_polling(false) and return: no second enter
     # awoken edge => zero timeout
     cs = [c for c in bool_call_switches(f, SET_POLLING) if c['call_loc'] == on[0][0]]
